@@ -117,7 +117,9 @@ class Harness:
     def obj(self, clsqual, **attrs):
         parts = clsqual.split(".")
         mod = source.module(".".join(parts[:-1]))
-        return Obj(mod, mod.classes[parts[-1]], attrs)
+        o = Obj(mod, mod.classes[parts[-1]], attrs)
+        o.partial = True  # made by the harness: only the state the contract describes; reading anything else = outside the contract
+        return o
 
     # ---- clauses -------------------------------------------------------------------------------
     def requires(self, name, *conds):
@@ -238,7 +240,7 @@ def _stmt_assigns(stmt, name):
     return False
 
 
-def _Harness_slice(self, qualname, first=None, last=None, first_assign=None, last_assign=None, until_raise=None, env=None, body_of=None, first_is_last_assignment=False, after_last_compound_storing=None):
+def _Harness_slice(self, qualname, first=None, last=None, first_assign=None, last_assign=None, until_raise=None, env=None, body_of=None, first_is_last_assignment=False, after_last_compound_storing=None, first_with_call=None):
     """Execute a contiguous slice of the top-level statements of the REAL function `qualname`:
     from the first statement assigning `first_assign` through the last statement assigning `last_assign`
     (or the `if` statement that raises `until_raise`).  Statements before the slice are NOT executed: the
@@ -249,11 +251,15 @@ def _Harness_slice(self, qualname, first=None, last=None, first_assign=None, las
     from .interp import Env
 
     fs = source.load(qualname)
-    self.udesc.setdefault("_srcs", {})[qualname] = {"sha256": fs.sha256, "lines": fs.nlines, "file": os.path.relpath(fs.mod.path, source.SRC), "lineno": fs.lineno, "slice": f"{first_assign}..{last_assign or until_raise}"}
+    self.udesc.setdefault("_srcs", {})[qualname] = {"sha256": fs.sha256, "lines": fs.nlines, "file": os.path.relpath(fs.mod.path, source.SRC), "lineno": fs.lineno, "slice": f"{first_assign or first_with_call}..{last_assign or until_raise}"}
     body = fs.node.body
     i0 = i1 = None
     for i, st in enumerate(body):
         if first_assign and _stmt_assigns(st, first_assign) and (i0 is None or first_is_last_assignment):
+            i0 = i
+        if first_with_call and i0 is None and any(isinstance(n, ast.Call) and ((isinstance(n.func, ast.Attribute) and n.func.attr == first_with_call) or (isinstance(n.func, ast.Name) and n.func.id == first_with_call)) for n in ast.walk(st)):
+            # anchored by what the statement DOES (the first top-level statement calling this method), not by the name of
+            # the local it stores into: renaming the local leaves the slice where it was
             i0 = i
         if last_assign and _stmt_assigns(st, last_assign):
             i1 = i
@@ -281,7 +287,7 @@ def _Harness_slice(self, qualname, first=None, last=None, first_assign=None, las
                         if isinstance(base, ast.Name) and base.id == nm:
                             i0 = i + 1
     if i0 is None or i1 is None or i1 < i0:
-        raise Undecided(f"slice {first_assign or after_last_compound_storing}..{last_assign or until_raise} not found in {qualname}")
+        raise Undecided(f"slice {first_assign or first_with_call or after_last_compound_storing}..{last_assign or until_raise} not found in {qualname}")
     e = Env(self.interp.module_env(fs.mod))
     from .interp import Closure
 
